@@ -51,7 +51,7 @@ CHECKS = {
          "SimpleMarker only; the stale allocator mapping is the deferred state that makes this a simulation target", "DESIGN.md 3/E4, 4/C15"),
  "C20": ("twin", "exploration", "deterministic simulation turned on itself: per-seed transcript (handles, results, join orders, event streams, serialised bytes) computed twice in one process with heap/hasher perturbation in between and again in a different batch of worker processes; all hashes must agree",
          "Same-process twin worlds and cross-process re-execution (different hash seeds, address layout, worker count) produce identical transcripts for every seed.",
-         "ahash's per-process keys have no seam and are varied by re-executing in other processes; destructor order in hash-map storages is not an observable the property lists; a third part runs the twin comparison over fault-injected histories (state leaking from one world to the next after a caught panic)", "DESIGN.md 4/C20, 13"),
+         "ahash's per-process keys have no seam and are varied by re-executing in other processes; destructor order in hash-map storages is not an observable the property lists; a third part runs the twin comparison over fault-injected histories (state leaking from one world to the next after a caught panic), a fourth over histories with thousands of live entities and thousand-handle batches (hidden intra-call parallelism); a C20 replay re-executes the seed several times in this and in fresh processes", "DESIGN.md 4/C20, 13"),
 }
 
 NOT_APPLICABLE = {
@@ -103,7 +103,7 @@ def main():
         ],
         "checks": checks,
         "not_applicable": na,
-        "notes": "Technique family: deterministic simulation with fault injection. See DESIGN.md. Genuine defect repaired: see known_findings.txt.",
+        "notes": "Technique family: deterministic simulation with fault injection. See DESIGN.md (sections 13-15: as built, sensitivity incl. 66 independently written changes under /verif/seeded, alarm triage). Genuine defect repaired: see known_findings.txt. Thorough tier: 4-15 min per property on 16 cores (Miri scenarios for C08/C10/C19 included); workers are recycled every 2000 runs.",
     }
     json.dump(m, open("/verif/MANIFEST.json", "w"), indent=1)
     print("checks:", [c["property_id"] for c in checks], "n/a:", [n["property_id"] for n in na])
